@@ -52,6 +52,7 @@ type redialWorld struct {
 	writeErrPre bool
 	wrote       [][]byte
 	overlap     string
+	carrierHook func(*FakeCarrier) // adjusts a new carrier before it is handed out
 }
 
 func (w *redialWorld) dial(ctx context.Context) (net_PacketConn, error) {
@@ -76,6 +77,9 @@ func (w *redialWorld) dial(ctx context.Context) (net_PacketConn, error) {
 			wf = 1
 		}
 		c := NewFakeCarrier(n, wf)
+		if w.carrierHook != nil {
+			w.carrierHook(c)
+		}
 		w.carriers = append(w.carriers, c)
 		// the environment: one inbound packet per carrier right away, a second one at t=1s
 		c.In <- []byte(fmt.Sprintf("in-%d-0", n))
@@ -112,3 +116,7 @@ func (w *redialWorld) closeConn() {
 	w.c.Close()
 	w.relOnce.Do(func() { close(w.released) })
 }
+
+// closeChan closes a channel from instrumented code (a close in the uninstrumented harness file would
+// not be seen by the scheduler).
+func closeChan(ch chan struct{}) { close(ch) }
